@@ -270,6 +270,8 @@ fn fam(name: &str, vk: &[VK], k: usize, c: usize, max_pub: usize, max_priv: usiz
         max_wide,
         wide_no_atoms: true,
         sym_reduce: true,
+        stages: vec![],
+        assert_split: None,
     }
 }
 
